@@ -99,6 +99,7 @@ func (e *endpoint) applyOwn(id http2.SettingID, v uint32) {
 		e.mfs = int64(v)
 	case http2.SettingHeaderTableSize:
 		e.dec.SetAllowedMaxDynamicTableSize(v)
+		e.htsAllowed = v
 	}
 }
 
@@ -281,12 +282,42 @@ func (s *Session) applyChange(c Change) bool {
 	return true
 }
 
+// opened reports whether e has sent (logged) the frame that opens / announces
+// stream id: its HEADERS, or a PUSH_PROMISE promising it (s.mu held).
+func (e *endpoint) opened(id uint32) bool {
+	if t := e.s.tr[e.idx][id]; t != nil {
+		for _, it := range t.items {
+			if it.kind == 'H' {
+				return true
+			}
+		}
+	}
+	for _, t := range e.s.tr[e.idx] {
+		for _, it := range t.items {
+			if it.kind == 'U' && it.promised == id {
+				return true
+			}
+		}
+	}
+	return false
+}
+
 // ---------------------------------------------------------------------------
 // receiver controller
 
 // knownAll waits until every stream with pending traffic toward e may receive WINDOW_UPDATEs.
 func (e *endpoint) awaitKnown() bool {
 	s := e.s
+	if !s.waitDep(func() bool {
+		for id, t := range s.tr[1-e.idx] {
+			if e.fullCompare(id) && !t.complete() && !e.known[id] && !e.peer().opened(id) {
+				return false
+			}
+		}
+		return true
+	}) {
+		return false
+	}
 	return s.wait(func() bool {
 		for id, t := range s.tr[1-e.idx] {
 			if e.fullCompare(id) && !t.complete() && !e.known[id] {
@@ -447,11 +478,18 @@ func (e *endpoint) sendOp(o *Op) bool {
 	id := o.S
 	if o.K < OpSettings {
 		if o.WaitHdr {
+			// first until the client has sent them (its own waits decide if it cannot), then until they arrive
+			if !s.waitDep(func() bool { return e.hdrRecv[id] || e.peer().opened(id) }) {
+				return false
+			}
 			if !s.wait(func() bool { return e.hdrRecv[id] }, s.stuckMissing("HEADERS")) {
 				return false
 			}
 		}
 		if o.WaitPP {
+			if !s.waitDep(func() bool { return e.ppRecv[id] || e.peer().opened(id) }) {
+				return false
+			}
 			if !s.wait(func() bool { return e.ppRecv[id] }, s.stuckMissing("PUSH_PROMISE")) {
 				return false
 			}
